@@ -37,7 +37,7 @@ def main():
         print(f"MACHINERY-FAILURE property={prop}: {e}", file=sys.stderr)
         return 2
     except Exception:
-        traceback.print_exc()
+        sys.stderr.write(traceback.format_exc())
         print(f"MACHINERY-FAILURE property={prop}: unexpected exception", file=sys.stderr)
         return 2
 
